@@ -3,7 +3,7 @@ import math
 
 from hypothesis import strategies as st
 
-SCALE_EXPONENTS = [0, 0, 0, 0, 1, -1, 2, -2, 3, -3, 6, -6]
+SCALE_EXPONENTS = [0, 0, 0, 0, 1, -1, 2, -2, 3, -3, 6, -6, 9, -9, -12]
 
 
 def finite(lo, hi):
@@ -20,19 +20,21 @@ def nudge(x, j):
 
 @st.composite
 def diagram_family(draw, count=2, min_size=0, max_size=5, allow_diag=True, allow_neg=True,
-                   modes=("lattice", "lattice", "float", "mixed"), scales=True, lattice_max=8,
+                   modes=("lattice", "lattice", "float", "mixed", "near"), scales=True, lattice_max=8,
                    float_box=100.0, dup_bias=False):
     """`count` diagrams drawn from one shared coordinate system, so that ties, equal
     births/deaths, touching bars and repeated points occur *between* diagrams too.
 
     lattice: integer lattice mapped by x -> (x + shift) * 10^k  (exact ties for k >= 0,
              one-ulp near-ties for k < 0);  mixed: lattice points moved by a few ulps;
+    near:    lattice points moved by a relative 10^-4 .. 10^-12 (distinct but nearly equal values, the regime
+             where a tolerance-based comparison inside the code under test would go wrong);
     float:   arbitrary finite floats in a box.
     Returns {"mode", "dgms": [[[b, d], ...], ...]} with d >= b (d > b unless allow_diag)."""
     mode = draw(st.sampled_from(modes))
     dgms = []
     scale = 1.0
-    if mode in ("lattice", "mixed"):
+    if mode in ("lattice", "mixed", "near"):
         L = draw(st.integers(2, lattice_max))
         k = draw(st.sampled_from(SCALE_EXPONENTS)) if scales else 0
         scale = 10.0 ** k
@@ -51,6 +53,13 @@ def diagram_family(draw, count=2, min_size=0, max_size=5, allow_diag=True, allow
                 if mode == "mixed" and ln > 0:
                     bb = nudge(bb, draw(st.integers(-2, 2)))
                     dd = nudge(dd, draw(st.integers(-2, 2)))
+                if mode == "near" and ln > 0:
+                    eps = 10.0 ** (-draw(st.integers(4, 12)))
+                    ref = max(abs(bb), abs(dd), scale)
+                    bb = bb + draw(st.integers(-3, 3)) * eps * ref
+                    dd = dd + draw(st.integers(-3, 3)) * eps * ref
+                    if not dd > bb:
+                        dd = bb + ln * scale
                 pts.append([bb, dd])
             dgms.append(pts)
     else:
@@ -83,7 +92,7 @@ def apply_perm(seq, perm):
 def valid_family(fam, allow_diag=True, min_size=0):
     """Domain predicate used by the shrinker (which edits the JSON blindly)."""
     try:
-        if not (fam["scale"] > 0) or fam["mode"] not in ("lattice", "mixed", "float"):
+        if not (fam["scale"] > 0) or fam["mode"] not in ("lattice", "mixed", "float", "near"):
             return False
         for d in fam["dgms"]:
             if len(d) < min_size:
